@@ -249,4 +249,79 @@ def hepDispatchChain (from_ : Bool) (ifaces : List String) : List Rule :=
   ifaces.map (fun n => ({ crits := [if from_ then Crit.inIf n else Crit.outIf n],
                           action := .goto ((if from_ then "cali-fh-" else "cali-th-") ++ n) } : Rule))
 
+/-! ## BPF mode: the static rules `InternalDataplane.setUpIptablesBPF` (felix/dataplane/linux/int_dataplane.go)
+programs straight into the kernel chains filter INPUT / FORWARD / OUTPUT (wireguard off, deny action DROP).
+In BPF mode policy is enforced by the BPF programs attached to the interfaces Felix knows; a packet that
+went through one carries the "seen" mark.  An interface that matches a workload prefix but that Felix does
+not know has no program, so its packets arrive WITHOUT the seen mark: these rules are what drops them. -/
+
+def markSeen : Nat := 0x1000000          -- tcdefs.MarkSeen (= MarkSeenMask)
+def markSeenBypass : Nat := 0x3000000    -- tcdefs.MarkSeenBypass (= its mask)
+def markSeenFallThrough : Nat := 0x5000000
+def markCtEstablished : Nat := 0x8000000 -- tcdefs.MarkLinuxConntrackEstablished
+def bpfOutDev := "bpfout.cali"
+
+/-- `bpfMarkPreestablishedFlowsRules`. -/
+def bpfMarkEstRule : Rule :=
+  { comment := some "Mark pre-established flows.", crits := [.ctEstRel], action := .setMarkMasked markCtEstablished }
+
+def bpfInputHead : List Rule :=
+  [{ comment := some "Accept packets from flows that pre-date BPF.",
+     crits := [.markSet markSeenFallThrough, .ctEstRel], action := .accept },
+   { comment := some "REJECT/rst packets from unknown TCP flows.",
+     crits := [.markSet markSeenFallThrough, .protoName "tcp" 6], action := .rejectRst },
+   { comment := some "Drop packets from unknown non-TCP flows.",
+     crits := [.markSet markSeenFallThrough], action := .drop }]
+
+def bpfInputDropUnseen (pfx : String) : Rule :=
+  { crits := [.inIf (pfx ++ "+"), .markNotSet markSeen], action := .drop }
+
+def bpfInputPrefixRules (c : Config) (pfx : String) : List Rule :=
+  (if c.toHost = .accept then [{ crits := [.inIf (pfx ++ "+"), .markSet markSeen], action := .accept }] else []) ++
+  [bpfInputDropUnseen pfx]
+
+/-- filter INPUT in BPF mode (either IP version). -/
+def bpfInputRules (c : Config) : List Rule :=
+  bpfInputHead ++ (c.prefixes.map (bpfInputPrefixRules c)).flatten
+
+def bpfFwdBypass : Rule :=
+  { comment := some "Pre-approved by BPF programs.", crits := [.markSet markSeenBypass], action := .accept }
+
+def bpfFwdDropUnseen (pfx : String) : Rule :=
+  { comment := some "From workload without BPF seen mark", crits := [.inIf (pfx ++ "+"), .markNotSet markSeen],
+    action := .drop }
+
+/-- the IPv6-only middle part: without BPF IPv6 support all IPv6 to pods is dropped; with it, router /
+neighbour ICMPv6 is kept from being forwarded. -/
+def bpfFwdV6Rules (c : Config) (bpf6 : Bool) : List Rule :=
+  if bpf6 then
+    [130, 131, 132, 133, 135, 136].map (fun t => ({ crits := [.protoNum 58, .icmp6Type t], action := .drop } : Rule))
+  else
+    c.prefixes.map (fun pfx => ({ comment := some "To workload, drop IPv6.", crits := [.outIf (pfx ++ "+")],
+                                  action := .drop } : Rule))
+
+/-- the part programmed when BPF handles this IP version. -/
+def bpfFwdTail (c : Config) : List Rule :=
+  bpfMarkEstRule ::
+  (c.prefixes.map (fun pfx => ({ comment := some "To workload, check workload is known.",
+                                 crits := [.outIf (pfx ++ "+")], action := .jump chToWlDispatch } : Rule)) ++
+   (c.prefixes.map (fun pfx => ({ comment := some "To workload, mark has already been verified.",
+                                  crits := [.inIf (pfx ++ "+")], action := .accept } : Rule)) ++
+    [{ comment := some "From ", moreComments := [bpfOutDev, " device, mark verified, accept."],
+       crits := [.inIf bpfOutDev], action := .accept }]))
+
+/-- filter FORWARD in BPF mode for the IPv4 (`v6 = false`) or IPv6 table, with `BPFIpv6Enabled = bpf6`. -/
+def bpfForwardRules (c : Config) (v6 bpf6 : Bool) : List Rule :=
+  bpfFwdBypass ::
+  (c.prefixes.map bpfFwdDropUnseen ++
+   ((if v6 then bpfFwdV6Rules c bpf6 else []) ++ (if !v6 || bpf6 then bpfFwdTail c else [])))
+
+/-- filter OUTPUT in BPF mode. -/
+def bpfOutputRules : List Rule := [bpfMarkEstRule]
+
+/-- `WorkloadInterfaceAllowChains`: the BPF-mode `cali-to-wl-dispatch` (flat: 0 or 1 known workload). -/
+def wlAllowChain (ifaces : List String) : List Rule :=
+  ifaces.map (fun n => ({ crits := [.outIf n], action := .accept } : Rule)) ++
+  [{ comment := some "Unknown interface", action := .drop }]
+
 end CalicoVerif.C40
